@@ -244,7 +244,7 @@ func (s vfState) IPv6Forwarding(ifi string) (bool, error) {
 	v, class := s.w.fwd[ifi], s.w.fwdErr[ifi]
 	s.w.mu.Unlock()
 	if class != "" {
-		s.w.rec.emit("fwd", "ifi", ifi, "val", false, "ok", false)
+		s.w.rec.emit("fwd", "ifi", ifi, "val", false, "ok", false, "class", class)
 		return false, vfErrClass(class)
 	}
 	s.w.rec.emit("fwd", "ifi", ifi, "val", v, "ok", true)
